@@ -269,6 +269,10 @@ def clause_cells(ctx, dets):
                    "total after update is %s, expected %s (counted exactly once on every normal path)" % (sorted(got_tot), sorted(exp_tot)))
             ctx.ob("RESTART", ci.name + ".update", "since-reset counter, cell " + label, got_since <= exp_since,
                    "since-reset after update is %s, allowed %s" % (sorted(got_since), sorted(exp_since)))
+            # the ordinary outcome (this update is the k-th of its epoch) must be among the outcomes, not only the tabled special cases
+            main = [x for x in exp_since if x != ("abs", 0)] or list(exp_since)
+            ctx.ob("RESTART", ci.name + ".update", "the ordinary path counts this update into its epoch, cell " + label, any(x in got_since for x in main),
+                   "since-reset after update is %s on every path; the ordinary value is %s" % (sorted(got_since), sorted(main)))
             restart = cell["_drift_state"] in RESTART_STATES.get(ci.name, ("drift",))
             if restart and not (ci.name == "PCACD" and not cell["_build_reference_and_test"]):
                 # the restart must actually happen: no leaf may continue the old epoch
